@@ -175,8 +175,36 @@ func C19(o *world.Obs) *Result {
 			continue
 		}
 		r.Label("invalidation")
+		targets := []string{ex.Req.URL}
+		for _, c := range o.FgCalls(ex) {
+			if c.Kind != "resp" {
+				continue
+			}
+			for _, k := range []string{"Location", "Content-Location"} {
+				if locs := c.RespHdr.Values(k); len(locs) == 1 {
+					if abs, ok := resolveLoc(ex.Req.URL, locs[0]); ok {
+						o1, ok1 := model.Origin(ex.Req.URL)
+						o2, ok2 := model.Origin(abs)
+						if ok1 && ok2 && o1 == o2 {
+							targets = append(targets, abs)
+						}
+					}
+				}
+			}
+		}
+		for _, target := range targets {
+			c19CheckInvalidated(o, r, ex, target)
+		}
+	}
+	return r
+}
+
+// c19CheckInvalidated: after the successful unsafe exchange ex, no key that was reachable from
+// the index of target remains in the store.
+func c19CheckInvalidated(o *world.Obs, r *Result, ex *world.Exchange, target string) {
+	{
 		// the index key is the first key read in an earlier GET exchange for an equivalent URI
-		nf, _ := model.NF(ex.Req.URL, false)
+		nf, _ := model.NF(target, false)
 		idxKey := ""
 		for _, op := range o.Ops {
 			if op.Ex >= 0 && op.Ex < len(o.Exchanges) && op.Op == "get" {
@@ -187,7 +215,7 @@ func C19(o *world.Obs) *Result {
 			}
 		}
 		if idxKey == "" {
-			continue
+			return
 		}
 		// reachable ids: the last successfully stored index value before the unsafe exchange
 		var reach []string
@@ -214,7 +242,7 @@ func C19(o *world.Obs) *Result {
 			}
 		}
 		if len(reach) == 0 || ex.Step >= len(o.Keys) {
-			continue
+			return
 		}
 		r.NonTrivial = true
 		live := map[string]bool{}
@@ -223,10 +251,9 @@ func C19(o *world.Obs) *Result {
 		}
 		for _, k := range reach {
 			if live[k] {
-				r.Fail("C19", "invalidation-leaves-key", ex.Idx, "after the successful %s on %s, key %q (reachable from the index before) is still stored; %s", ex.Req.Method, ex.Req.URL, k, SummarizeExchange(o, ex))
+				r.Fail("C19", "invalidation-leaves-key", ex.Idx, "after the successful %s on %s (invalidating %s), key %q (reachable from that URI's index before) is still stored; %s", ex.Req.Method, ex.Req.URL, target, k, SummarizeExchange(o, ex))
 				break
 			}
 		}
 	}
-	return r
 }
